@@ -21,6 +21,7 @@ import (
 //   - names are slash separated, with the first matching strip prefix removed
 //   - per requested algorithm the digest of the (optionally line-normalised) bytes
 //   - missing / dangling paths, unknown algorithms, colliding names and symlink cycles are errors
+//   - named pipes, sockets and devices (also behind a symlink) are no regular files: no entry
 //
 // Exclude patterns are restricted to what the checks generate: "*.ext" and exact base names
 // (of files and symlinks, never of directories).
@@ -72,8 +73,9 @@ func RefNormalize(b []byte) []byte {
 }
 
 type refRecorder struct {
-	o   RecOpts
-	out map[string]map[string]string
+	o       RecOpts
+	out     map[string]map[string]string
+	special bool
 }
 
 // RefRecord records the artifacts below o.Paths relative to the current working directory.
@@ -202,7 +204,9 @@ func (r *refRecorder) walk(fsPath, name string, stack []string, top bool) error 
 			return nil
 		}
 		if !ti.Mode().IsRegular() {
-			return fmt.Errorf("%s: not a regular file", target)
+			// a named pipe, socket or device: no regular file, hence no entry
+			r.special = true
+			return nil
 		}
 		return r.add(name, target)
 	case fi.Mode().IsRegular():
@@ -211,7 +215,9 @@ func (r *refRecorder) walk(fsPath, name string, stack []string, top bool) error 
 		}
 		return r.add(name, fsPath)
 	}
-	return fmt.Errorf("%s: unsupported file type", fsPath)
+	// a named pipe, socket or device: no regular file, hence no entry
+	r.special = true
+	return nil
 }
 
 // ---- directory tree model ----------------------------------------------------------------------
@@ -242,6 +248,10 @@ func WriteTree(root string, nodes []TNode) error {
 			}
 		case "symlink":
 			if err := os.Symlink(strings.ReplaceAll(n.Target, "@ROOT@", root), p); err != nil {
+				return err
+			}
+		case "fifo":
+			if err := mkfifo(p); err != nil {
 				return err
 			}
 		}
